@@ -60,7 +60,7 @@ static inline void render_booster(std::ostringstream &o, const char *id, const t
 
 // with_temp_known: the snapshot's booster temp_known flag is only meaningful if the library
 // initialises it (C17 checks that); other properties leave it out of the comparison.
-static inline std::string snapshot_text(bool with_temp_known = false) {
+static inline std::string snapshot_text(bool with_temp_known = true) {
 	t_bidib_track_state st = bidib_get_state();
 	std::ostringstream o;
 	for (size_t i = 0; i < st.points_board_count; i++) render_board_acc(o, "point", st.points_board[i]);
